@@ -69,6 +69,7 @@ type c09Knobs struct {
 	Part            string `json:"part"` // backchannel | inflight
 	ClientTimeoutMs int64  `json:"client_timeout_ms"`
 	CtxTimeoutMs    int64  `json:"ctx_timeout_ms"`
+	NoDeadline      bool   `json:"application_sets_no_deadline,omitempty"` // both timeouts 0 and meant so (else 0/0 stands for the 5 s client default of older plans)
 	MaxIssueDelayMs int64  `json:"MaxIssueDelay_ms"`
 }
 
@@ -185,6 +186,7 @@ type c09Resp struct {
 	ClaimLen     int64         // >0: announced Content-Length (the body delivered is what Body/CutAt say, i.e. far shorter)
 	CloseErr     bool          // the whole body is delivered, then Close() reports an error
 	RedirectTo   string        // non-empty: 307 to this URL (the peer keeps redirecting to URLs it has not used before)
+	Endless      bool          // after Body the peer keeps sending filler, half a kilobyte a (simulated) second, for as long as anybody reads
 }
 
 // c09Transport is the SimTransport: an http.RoundTripper routing to simulated peers.
@@ -192,6 +194,7 @@ type c09Transport struct {
 	handler   func(req *http.Request, body []byte) *c09Resp
 	callStart int  // Requests at the start of the current API call
 	Runaway   bool // the current call issued more than 200 back-channel requests
+	ReadOn    bool // the current call read more than c09EndlessReads pieces of an endless body and had to be cut off
 	Requests  int
 	Open      int // bodies handed out that were neither closed nor read to EOF/error
 }
@@ -273,7 +276,12 @@ type c09Body struct {
 	chunk   int
 	pauseAt int
 	done    bool
+	filler  int
 }
+
+const c09EndlessReads = 4000
+
+var c09Filler = []byte(strings.Repeat("<!-- still here -->\n", 25))
 
 func (b *c09Body) release() {
 	if !b.done {
@@ -286,6 +294,25 @@ func (b *c09Body) Read(p []byte) (int, error) {
 	if err := b.ctx.Err(); err != nil {
 		b.release()
 		return 0, err
+	}
+	if b.off >= len(b.data) && b.r.Endless {
+		b.filler++
+		if b.filler > c09EndlessReads {
+			// a caller that reads an endless body to its end would spin the simulation forever: cut it off and report it
+			b.t.ReadOn = true
+			b.release()
+			return 0, errors.New("sim: endless body cut off")
+		}
+		tm := time.NewTimer(time.Second)
+		select {
+		case <-tm.C:
+		case <-b.ctx.Done():
+			tm.Stop()
+			b.release()
+			return 0, b.ctx.Err()
+		}
+		n := copy(p, c09Filler)
+		return n, nil
 	}
 	if b.off >= len(b.data) {
 		if b.r.StallAt >= 0 {
@@ -816,6 +843,25 @@ var c09MetaShapes = []string{
 	"cacheduration-negative", "cacheduration-bare-p", "cacheduration-bare-pt", "cacheduration-dot-only", "cacheduration-all-fields", "cacheduration-empty",
 	"validuntil-year-99999", "validuntil-fraction-1000", "validuntil-year-0", "validuntil-empty", "validuntil-zone-99",
 	"with-affiliation-descriptor", "entities-with-affiliation", "affiliation-only", "kitchen-sink",
+	// what comes before the root element: declarations naming other encodings or XML versions, byte-order marks, processing
+	// instructions, a DOCTYPE, comments
+	"prolog-latin1", "prolog-xml11", "prolog-utf16-name", "prolog-ascii", "prolog-bom", "prolog-bom-decl", "prolog-standalone", "prolog-pi", "prolog-doctype",
+	"prolog-comment", "prolog-decl-in-entities", "prolog-empty-encoding", "prolog-garbage-decl",
+}
+
+var c09Prologs = map[string]string{
+	"prolog-latin1":         `<?xml version="1.0" encoding="ISO-8859-1"?>` + "\n",
+	"prolog-xml11":          `<?xml version="1.1"?>`,
+	"prolog-utf16-name":     `<?xml version="1.0" encoding="UTF-16"?>`,
+	"prolog-ascii":          `<?xml version="1.0" encoding="US-ASCII"?>`,
+	"prolog-bom":            "\xef\xbb\xbf",
+	"prolog-bom-decl":       "\xef\xbb\xbf" + `<?xml version="1.0" encoding="UTF-8"?>`,
+	"prolog-standalone":     `<?xml version="1.0" encoding="utf-8" standalone="yes"?>` + "\r\n",
+	"prolog-pi":             `<?xml version="1.0"?><?xml-stylesheet type="text/xsl" href="md.xsl"?>`,
+	"prolog-doctype":        `<?xml version="1.0"?><!DOCTYPE EntityDescriptor>`,
+	"prolog-comment":        `<!-- generated 2000-01-01 --><?pi?>` + "\n\n",
+	"prolog-empty-encoding": `<?xml version="1.0" encoding=""?>`,
+	"prolog-garbage-decl":   `<?xml version="2.0" encoding="x-unknown-9" ?>`,
 }
 
 // elements of the metadata schema that IdP metadata and federation aggregates may carry beside the IDPSSODescriptor
@@ -872,6 +918,12 @@ func c09BuildMetadata(shape string) []byte {
 	}
 	if t, ok := c09MetaTexts[shape]; ok {
 		return edit(func(r *etree.Element) { r.CreateAttr(t[0], t[1]) })
+	}
+	if pro, ok := c09Prologs[shape]; ok {
+		return []byte(pro + idp)
+	}
+	if shape == "prolog-decl-in-entities" {
+		return []byte(`<?xml version="1.0" encoding="ISO-8859-1"?><EntitiesDescriptor ` + ns + `>` + spmd + idp + `</EntitiesDescriptor>`)
 	}
 	// insert raw children at the end of the IdP's EntityDescriptor
 	withChildren := func(xmlText string) string {
@@ -1340,9 +1392,9 @@ func c09Budget(k c09Knobs) int64 {
 
 // ---------------------------------------------------------------- part 1: back-channel fault sequences
 
-var c09ArtFaults = []string{"conn_err", "status", "empty", "trunc_err", "trunc_clean", "length_lie", "close_err", "redirect_chain", "slow", "stall_headers", "stall_body",
+var c09ArtFaults = []string{"conn_err", "status", "status_endless", "empty", "trunc_err", "trunc_clean", "length_lie", "close_err", "redirect_chain", "slow", "stall_headers", "stall_body",
 	"garbage", "soap_fault", "wrong_envelope", "wrong_irt", "bad_status", "unsigned", "wrong_key", "good"}
-var c09MdFaults = []string{"conn_err", "status", "empty", "trunc_err", "trunc_clean", "slow", "stall_headers", "stall_body",
+var c09MdFaults = []string{"conn_err", "status", "status_endless", "empty", "trunc_err", "trunc_clean", "slow", "stall_headers", "stall_body",
 	"garbage", "wrong_doc", "good"}
 
 const c09NWrongEnvelope = 10
@@ -1479,6 +1531,10 @@ func c09BackResp(st *c09Step, payload []byte) *c09Resp {
 		if st.Code == 302 && st.Variant >= 3 {
 			r.Header = http.Header{"Location": {"/elsewhere"}}
 		}
+	case "status_endless":
+		// a tar pit, or a broken proxy: an error status whose body never ends
+		r.Code, r.Endless = st.Code, true
+		r.Body = []byte("<html><body><h1>" + http.StatusText(st.Code) + "</h1>")
 	case "empty":
 		r.Body = nil
 	case "trunc_err":
@@ -1513,6 +1569,9 @@ func c09ExecBack(p *Plan, k c09Knobs, res *Result) {
 	client := &http.Client{Transport: tr, Timeout: ms(k.ClientTimeoutMs)}
 	spv.HTTPClient = client
 	budget := c09Budget(k)
+	if budget == 0 {
+		res.probe("application-sets-no-deadline")
+	}
 	prevID := ""
 	for si, raw := range p.Steps {
 		st := decode[c09Step](raw)
@@ -1527,7 +1586,7 @@ func c09ExecBack(p *Plan, k c09Knobs, res *Result) {
 		res.Extra[fmt.Sprintf("cov:%s:%s@%d", st.Kind, st.Fault, pos)]++
 		t0 := time.Now()
 		resolveID := ""
-		tr.callStart, tr.Runaway = tr.Requests, false
+		tr.callStart, tr.Runaway, tr.ReadOn = tr.Requests, false, false
 		tr.handler = func(req *http.Request, body []byte) *c09Resp {
 			if req.URL.Path == "/elsewhere" {
 				return c09Plain([]byte(c09Garbage[1]))
@@ -1565,8 +1624,8 @@ func c09ExecBack(p *Plan, k c09Knobs, res *Result) {
 			res.Nontrivial = true
 		}
 		shape := st.Fault
-		if st.Fault == "status" {
-			shape = fmt.Sprintf("status-%d", st.Code)
+		if st.Fault == "status" || st.Fault == "status_endless" {
+			shape = fmt.Sprintf("%s-%d", strings.ReplaceAll(st.Fault, "_", "-"), st.Code)
 		}
 		var pan *c09Panic
 		var observed string
@@ -1586,6 +1645,11 @@ func c09ExecBack(p *Plan, k c09Knobs, res *Result) {
 			if tr.Runaway {
 				res.logf("step %d resolve fault=%s: the call kept issuing back-channel requests (%d) and had to be cut off", si, shape, tr.Requests-tr.callStart)
 				res.violate(si, "hang", "C09/hang/ParseResponse/backchannel-"+shape+"/unbounded-requests", "a bounded number of back-channel requests per resolution", fmt.Sprintf("> %d requests, still going", tr.Requests-tr.callStart-1), "")
+				return
+			}
+			if tr.ReadOn {
+				res.logf("step %d resolve fault=%s: the call kept reading the endless body of an error reply and had to be cut off", si, shape)
+				res.violate(si, "hang", "C09/hang/ParseResponse/backchannel-"+shape+"/reads-error-body-without-end", "returns once the peer has answered with an error status", fmt.Sprintf("still reading after %d pieces and %d simulated seconds", c09EndlessReads, c09EndlessReads), "")
 				return
 			}
 			if st.Fault == "length_lie" && pan == nil && grew > 256<<20 {
@@ -1611,6 +1675,11 @@ func c09ExecBack(p *Plan, k c09Knobs, res *Result) {
 			cancel()
 			synctest.Wait()
 			spent := time.Since(t0)
+			if tr.ReadOn {
+				res.logf("step %d fetch fault=%s: the call kept reading the endless body of an error reply and had to be cut off", si, shape)
+				res.violate(si, "hang", "C09/hang/samlsp.FetchMetadata/backchannel-"+shape+"/reads-error-body-without-end", "returns once the peer has answered with an error status", fmt.Sprintf("still reading after %d pieces and %d simulated seconds", c09EndlessReads, c09EndlessReads), "")
+				return
+			}
 			switch {
 			case pan != nil:
 				observed = "PANIC(" + pan.Func + ")"
@@ -1627,7 +1696,7 @@ func c09ExecBack(p *Plan, k c09Knobs, res *Result) {
 			switch {
 			case st.Fault == "good" || (st.Fault == "slow" && total < budget-100):
 				mdExpect = "METADATA"
-			case st.Fault == "conn_err" || st.Fault == "stall_headers" || st.Fault == "stall_body" || st.Fault == "trunc_err" || (st.Fault == "slow" && total > budget+100):
+			case st.Fault == "conn_err" || st.Fault == "status_endless" || st.Fault == "stall_headers" || st.Fault == "stall_body" || st.Fault == "trunc_err" || (st.Fault == "slow" && total > budget+100):
 				mdExpect = "ERROR"
 			}
 			res.logf("step %d fetch fault=%s variant=%d pos=%d expect=%s observed=%s budget_ms=%d spent_ms=%d requests=%d", si, shape, st.Variant, pos, mdExpect, observed, budget, spent.Milliseconds(), tr.Requests)
@@ -2231,8 +2300,14 @@ func genTotality(g *Rng, tier string) *Plan {
 		k.Part = "backchannel"
 		k.ClientTimeoutMs = Pick(g, int64(0), 2000, 5000, 30_000)
 		k.CtxTimeoutMs = Pick(g, int64(0), 1000, 3000, 10_000)
+		noDeadline := false
 		if k.ClientTimeoutMs == 0 && k.CtxTimeoutMs == 0 {
-			k.ClientTimeoutMs = 5000
+			// an application that sets no deadline at all (an http.Client without Timeout, a server's request context): peers that
+			// stall or trickle are then the application's problem and are not drawn; a peer that has answered is the library's
+			if noDeadline = g.Bool(0.6); !noDeadline {
+				k.ClientTimeoutMs = 5000
+			}
+			k.NoDeadline = noDeadline
 		}
 		n := 1 + g.Intn(4)
 		for i := 0; i < n; i++ {
@@ -2245,6 +2320,9 @@ func genTotality(g *Rng, tier string) *Plan {
 				st.Kind, st.Entry, faults = "fetch", "samlsp.FetchMetadata", c09MdFaults
 			}
 			st.Fault = faults[g.Intn(len(faults))]
+			for noDeadline && (st.Fault == "slow" || st.Fault == "stall_headers" || st.Fault == "stall_body") {
+				st.Fault = Pick(g, "status_endless", "status_endless", faults[g.Intn(len(faults))])
+			}
 			switch st.Fault {
 			case "garbage", "wrong_envelope", "wrong_irt", "bad_status", "wrong_doc", "good":
 				st.Variant = g.Intn(12)
@@ -2252,6 +2330,8 @@ func genTotality(g *Rng, tier string) *Plan {
 			st.Layout = Pick(g, "R", "A", "RA")
 			st.Encrypt = g.Bool(0.25)
 			switch st.Fault {
+			case "status_endless":
+				st.Code = Pick(g, 404, 500, 503, 401, 429)
 			case "status":
 				st.Code = Pick(g, 404, 500, 302, 503, 401, 204)
 				if st.Code == 204 {
@@ -2397,7 +2477,7 @@ func execTotality(t *testing.T, p *Plan) *Result {
 	if k.MaxIssueDelayMs > 0 {
 		saml.MaxIssueDelay = ms(k.MaxIssueDelayMs)
 	}
-	if k.ClientTimeoutMs == 0 && k.CtxTimeoutMs == 0 {
+	if k.ClientTimeoutMs == 0 && k.CtxTimeoutMs == 0 && !k.NoDeadline {
 		k.ClientTimeoutMs = 5000
 	}
 	installRand(p)
